@@ -52,14 +52,15 @@ def _dataclass_arguments(decorators: list[Decorator]) -> dict[str, Any]:
     return {}
 
 
-def _field_arguments(attribute: Attribute) -> dict[str, Any]:
+def _field_arguments(attribute: Attribute) -> dict[str, Any] | None:
+    # Return the arguments of the `field()` call, or `None` when the value is not a `field()` call.
     if attribute.value:
         value = attribute.value
         if isinstance(value, ExprAttribute):
             value = value.last
         if isinstance(value, ExprCall) and value.canonical_path == "dataclasses.field":
             return _expr_args(value)
-    return {}
+    return None
 
 
 @cache
@@ -108,6 +109,8 @@ def _dataclass_parameters(class_: Class) -> list[Parameter]:
 
             # Fetch `field` arguments if any.
             field_args = _field_arguments(member)
+            is_field_call = field_args is not None
+            field_args = field_args or {}
 
             # Parameter not added to `__init__`, skip it.
             if field_args.get("init") == "False":
@@ -120,11 +123,14 @@ def _dataclass_parameters(class_: Class) -> list[Parameter]:
                 else ParameterKind.positional_or_keyword
             )
 
-            # Determine parameter default.
+            # Determine parameter default: a `field()` call without `default`
+            # nor `default_factory` means the parameter is required.
             if "default_factory" in field_args:
                 default = ExprCall(function=field_args["default_factory"], arguments=[])
+            elif is_field_call:
+                default = field_args.get("default")
             else:
-                default = field_args.get("default", None if field_args else member.value)
+                default = member.value
 
             # Add parameter to the list.
             parameters.append(
